@@ -15,6 +15,8 @@ def cases(tier, seed):
                 continue
             for cplx in ((False, True) if tier != "quick" else (False,)):
                 yield dict(fn="app.lls", args=dict(solver=solver, g=g, G=G, lam=lam, z=z, complex=cplx and g != "box", seed=seed, x0=(seed % 2 == 0)))
+    for g, G, rho in itertools.product(("l1", "l2"), (None, "fd"), (4.0, 0.25)):
+        yield dict(fn="app.lls", args=dict(solver="ADMM", g=g, G=G, lam=0.3, z=True, rho=rho, seed=seed))      # user-supplied penalty parameter
     for A in ("identity", "reshape"):
         for solver in ("ConjugateGradient", "ADMM", "GradientMethod", "PrimalDualHybridGradient"):
             yield dict(fn="app.lls", args=dict(A=A, solver=solver, g=("l1" if solver != "ConjugateGradient" else None), lam=0.3, z=True, seed=seed))
@@ -23,4 +25,4 @@ def cases(tier, seed):
 def groups(tier, seed):
     yield dict(name="LinearLeastSquares: objective at the returned x vs a reference optimum; y, z untouched",
                bound="6x4 dense A (and A = Identity / Reshape views), g in {0,l1,l2,box}, G in {none,dense 5x4,finite difference}, lamda in {0,0.3}, z given or not, "
-                     "every applicable solver", cases=cases(tier, seed))
+                     "every applicable solver; ADMM also with rho in {4, 0.25}", cases=cases(tier, seed))
